@@ -229,6 +229,14 @@ def run(chk):
             # inside the outer loop only (not in the chain loops)
             depth = sum(1 for a in fn.ancestors(s) if a.get("k") in ("ForStmt", "WhileStmt", "DoStmt"))
             chk.ob("C15-D3.books", fname, "saveStateHistory once per iteration (loop depth 1)", depth == 1, fn.loc(s), "loop depth %d" % depth)
+            # ... and in every iteration: no continue / break / early return leaves the body before the snapshot test was evaluated
+            if outer is not None:
+                from tsg.typestate import must_pass_each_iteration
+                encl = next((a for a in fn.ancestors(s) if a.get("k") == "IfStmt" and a.get("cond") is not None), None)
+                guard_nodes = ([encl["cond"]] + list(walk(encl["cond"]))) if encl is not None else []
+                every = must_pass_each_iteration(fn, outer, lambda n_: any(x is n_ for x in guard_nodes) or n_ is s)
+                chk.ob("C15-D3.books", fname, "every iteration reaches the snapshot test", bool(every), fn.loc(s),
+                       "" if every else "a path leaves the body of the sampling loop (continue / break / return) before `t >= num_burnup` is tested: that iteration is not recorded")
         # loop bound = max(burnup,0)+max(collect,0)
         if outer is not None:
             ct = txt(strip(outer.get("cond")))
